@@ -62,7 +62,12 @@ class Executor(AccessMixin, BuiltinsMixin, StmtMixin, ExecutorBase):
                 heap, locs = f.loop_entry
             if heap is None:
                 raise Unsupported(name + "() outside a verified function")
-            return self.with_heap(heap, locs, lambda: self.ev(node.args[0], fr), owner=f)
+            res = self.with_heap(heap, locs, lambda: self.ev(node.args[0], fr), owner=f)
+            if res.term is not None and res.meta is None and res.ty is not None and res.ty.name in ("list", "dict", "set"):
+                # a container seen through old()/pre()/at_loop_entry(): its CONTENTS are those of that earlier heap as well
+                # (iteration, membership, has_key, len and subscripts on the result read the earlier heap)
+                res = SV(res.term, res.ty, ("oldview", heap, locs, f))
+            return res
         if name == "implies":
             a = self.truthy(self.ev(node.args[0], fr))
             b = self.truthy(self.ev(node.args[1], fr))
@@ -116,7 +121,7 @@ class Executor(AccessMixin, BuiltinsMixin, StmtMixin, ExecutorBase):
             return SV(mk_bool(self.list_eq(a, b)), Ty("bool"))
         if name == "has_key":
             d, k = self.ev(node.args[0], fr), self.ev(node.args[1], fr)
-            return SV(mk_bool(H.dict_has(self.st, H.rid(d), self.need_term(k))), Ty("bool"))
+            return SV(mk_bool(self.in_view(d, lambda: H.dict_has(self.st, H.rid(d), self.need_term(k)))), Ty("bool"))
         if name == "typed":
             v = self.ev(node.args[0], fr)
             t = parse_ann(node.args[1].value)
@@ -132,6 +137,13 @@ class Executor(AccessMixin, BuiltinsMixin, StmtMixin, ExecutorBase):
             args = [self.ev(a, fr) for a in node.args]
             return h(Ctx(self, fr, name, node), *args)
         return None
+
+    def in_view(self, sv, thunk):
+        """run `thunk` against the heap a container value was taken from (old()/pre() views), else against the current heap"""
+        m = getattr(sv, "meta", None)
+        if m and m[0] == "oldview":
+            return self.with_heap(m[1], m[2], thunk, owner=m[3])
+        return thunk()
 
     def with_heap(self, heap, locs, thunk, owner=None):
         st = self.st
